@@ -303,13 +303,15 @@ if __name__ == "__main__":
 # public-API replay (papi): used for units above the kernels (ED, RIS, MONT, SG, SM, SIG) when an obligation fails or the
 # extraction is undecided. Inputs: corner sets per family (non-canonical encodings, torsion / exceptional points, u = -1,
 # scalars around l, 2^252, 2^255) plus VERIF_SEED-seeded random ones; judged by vlib/oracle.py.
-def _build_papi(repo):
+def _build_papi(repo, backend=None):
+    """backend: None = the crate's default (run-time dispatch: AVX2 on this host); "serial" = --cfg curve25519_dalek_backend="serial",
+    so that the SERIAL copies of the scalar-multiplication algorithms are the code that runs"""
     with _ReplayLock():
-        b = _build_papi_locked(repo)
-        return _private_copy(b, "papi") if b else None
+        b = _build_papi_locked(repo, backend)
+        return _private_copy(b, "papi" + ("-" + backend if backend else "")) if b else None
 
 
-def _build_papi_locked(repo):
+def _build_papi_locked(repo, backend=None):
     src = os.path.join(VERIF, "replay", "papi")
     wd = os.path.join(VERIF, ".work", "replay-papi" + ("" if repo.rstrip("/") == "/repo" else "-alt"))
     if os.path.exists(wd):
@@ -321,9 +323,11 @@ def _build_papi_locked(repo):
     lock = os.path.join(repo, "Cargo.lock")
     if os.path.exists(lock):
         shutil.copy(lock, os.path.join(wd, "Cargo.lock"))
-    tdir = os.path.join(VERIF, ".work", "replay-target" + ("" if repo.rstrip("/") == "/repo" else "-alt"))
-    r = subprocess.run(["cargo", "build", "--offline", "--target-dir", tdir], cwd=wd, capture_output=True, text=True,
-                       env=dict(os.environ, CARGO_NET_OFFLINE="true"))
+    tdir = os.path.join(VERIF, ".work", "replay-target" + ("" if repo.rstrip("/") == "/repo" else "-alt") + ("-" + backend if backend else ""))
+    env = dict(os.environ, CARGO_NET_OFFLINE="true")
+    if backend:
+        env["RUSTFLAGS"] = (env.get("RUSTFLAGS", "") + ' --cfg curve25519_dalek_backend="%s"' % backend).strip()
+    r = subprocess.run(["cargo", "build", "--offline", "--target-dir", tdir], cwd=wd, capture_output=True, text=True, env=env)
     if r.returncode != 0:
         return None
     return os.path.join(tdir, "debug", "papi")
@@ -378,9 +382,22 @@ def families_of(unit):
     return _FAMS.get(unit)
 
 
+# units whose verified text is the SERIAL copy of an algorithm that the default build replaces by the AVX2 copy on this host
+_SERIAL_UNITS = ("SM", "SM2", "MSM", "SGR", "SMNT", "RIS2", "TRS", "BV", "SIG")
+
+
 def refute_papi(unit, fn, repo, seed):
+    r = _refute_papi_1(unit, fn, repo, seed, None)
+    if r is None and unit in _SERIAL_UNITS:
+        r = _refute_papi_1(unit, fn, repo, seed, "serial")
+        if r is not None:
+            r["backend"] = 'built with --cfg curve25519_dalek_backend="serial"'
+    return r
+
+
+def _refute_papi_1(unit, fn, repo, seed, backend):
     from vlib import oracle as O
-    binary = _build_papi(repo)
+    binary = _build_papi(repo, backend)
     if binary is None:
         return None
     rng = random.Random(seed or 1)
@@ -472,8 +489,12 @@ def refute_papi(unit, fn, repo, seed):
                 add("ed.double_base %s %s %s" % (_h(b1), _h(sb), _h(t.to_bytes(32, "little"))),
                     _h(O.ed_encode(O.ed_add(O.ed_mul(s, a1), O.ed_mul(t, O.B)))))
         # multiscalar, small sizes and one Pippenger-size instance
-        for n in (0, 1, 2, 3, 190):
+        for n in ((0, 1, 2, 3, 190, 800) if unit in ("MSM", "VMSM", "RIS2", "TRS", "BV") else (0, 1, 2, 3, 190)):
             ss = [rng.randrange(0, O.L) for _ in range(n)]
+            if n >= 800:
+                # window 8 (n >= 800): radix-256 digits of -128 and +127/+128 carries (bytes 0x80, 0x7f, 0xff)
+                for k, pat in enumerate((0x80, 0x7f, 0xff, 0x81)):
+                    ss[k] = int.from_bytes(bytes([pat] * 31 + [0x0f]), "little") % O.L
             pp = [pts[i % len(pts)] for i in range(n)]
             acc = O.ID
             for sc, (_, a1) in zip(ss, pp):
